@@ -214,6 +214,7 @@ type Layout struct {
 	EmptyPad    bool   `json:"empty_pad"`    // a blank inside empty containers: `[ ]`, `{ }`
 	EmptyDash   bool   `json:"empty_dash"`   // rules without a note are followed by a dash with nothing behind it: `{..} -`
 	BlockInAnn  bool   `json:"block_in_ann"` // a ### block comment between the rules of an annotation and what follows them
+	EmptyCmt    bool   `json:"empty_cmt"`    // a ### block comment inside empty containers: `[### c ###]`, with EmptyPad `[ ### c ### ]`
 	NoteBelow   bool   `json:"note_below"`   // an annotation that is only a note stands on a line of its own below its one-line element (last member / item, or the root)
 }
 
@@ -247,6 +248,7 @@ func RandLayout(rng *rand.Rand) Layout {
 		EmptyDash:   rng.IntN(6) == 0,
 		BlockInAnn:  rng.IntN(8) == 0,
 		NoteBelow:   rng.IntN(6) == 0,
+		EmptyCmt:    rng.IntN(6) == 0,
 	}
 	return l
 }
@@ -489,6 +491,12 @@ func (p *printer) element(n *Node, level int, tail string, ownLine bool) {
 		if len(n.Children) == 0 {
 			if p.l.EmptyPad {
 				open += " "
+			}
+			if p.l.EmptyCmt {
+				open += "### c ###"
+				if p.l.EmptyPad {
+					open += " "
+				}
 			}
 			p.sb.WriteString(open + close + tail)
 			p.annotationAfter(n, level, tail, ownLine)
